@@ -83,32 +83,41 @@ def cut(iv, labels, j, tau):
     return np.array(rows, dtype=float), labs
 
 
-def job_chord_refinement(size, side, j):
+def job_chord_refinement(size, side, j, pieces=2):
     ev = E.by_task('chord')
 
     def build(ctx):
         inp = ev.build(ctx, size)
         ri, rl, ei, el = inp['args']
         iv = ri if side == 'ref' else ei
-        tau = ctx.real('tau')
-        ctx.assume(tau > iv[j, 0])
-        ctx.assume(tau < iv[j, 1])
-        inp['tau'] = tau
+        taus = [ctx.real('tau%d' % k) for k in range(pieces - 1)]
+        prev = iv[j, 0]
+        for t in taus:
+            ctx.assume(t > prev)
+            prev = t
+        ctx.assume(prev < iv[j, 1])
+        inp['taus'] = taus
         return inp
+
+    def cutn(iv, labels, taus):
+        # cut interval j into len(taus)+1 pieces carrying the same label (cuts applied right to left keep index j valid)
+        for t in list(taus)[::-1]:
+            iv, labels = cut(iv, labels, j, t)
+        return iv, labels
 
     def body(A, inp):
         ri, rl, ei, el = inp['args']
         s1 = ev.call(dict(args=(ri.copy(), list(rl), ei.copy(), list(el)), kw={}))
         if side == 'ref':
-            ri2, rl2 = cut(ri, rl, j, inp['tau'])
+            ri2, rl2 = cutn(ri, rl, inp['taus'])
             s2 = ev.call(dict(args=(ri2, rl2, ei.copy(), list(el)), kw={}))
         else:
-            ei2, el2 = cut(ei, el, j, inp['tau'])
+            ei2, el2 = cutn(ei, el, inp['taus'])
             s2 = ev.call(dict(args=(ri.copy(), list(rl), ei2, el2), kw={}))
         for k in s1:
             A.observe(k, s1[k])
             A.require(A.eq(s1[k], s2[k]), 'chord.evaluate[%s]:unchanged-by-cutting-an-interval' % k)
-    return Job('C12', 'chord.evaluate[%s,cut %s interval %d]' % ('x'.join(map(str, size)), side, j), build, body, funcs=ev.funcs,
+    return Job('C12', 'chord.evaluate[%s,cut %s interval %d into %d]' % ('x'.join(map(str, size)), side, j, pieces), build, body, funcs=ev.funcs,
                bounds=dict(size=size), timeout_s=2400)
 
 
@@ -177,6 +186,8 @@ def jobs(tier):
                             [((1, 1), 'ref', 0), ((1, 1), 'est', 0), ((2, 1), 'est', 0), ((2, 1), 'ref', 1), ((1, 2), 'ref', 0), ((1, 2), 'est', 1),
                              ((2, 2), 'ref', 0), ((2, 2), 'est', 1)]):
         js.append(job_chord_refinement(size, side, j))
+    for (size, side, j, k) in ([((2, 1), 'ref', 0, 3)] if q else [((2, 1), 'ref', 0, 3), ((1, 2), 'est', 1, 3), ((1, 1), 'ref', 0, 4), ((2, 2), 'est', 0, 3)]):
+        js.append(job_chord_refinement(size, side, j, k))
     for (n, m, rl, el, side, j) in ([(1, 1, ['a'], ['A'], 'ref', 0), (2, 2, ['a', 'b'], ['x', 'y'], 'est', 1), (2, 1, ['a', 'b'], ['x'], 'ref', 0)] if q else
                                     [(1, 1, ['a'], ['A'], 'ref', 0), (2, 2, ['a', 'b'], ['x', 'y'], 'est', 1), (2, 1, ['a', 'b'], ['x'], 'ref', 0),
                                      (2, 2, ['a', 'a'], ['x', 'y'], 'ref', 1), (2, 2, ['a', 'b'], ['b', 'a'], 'ref', 0), (3, 2, ['a', 'b', 'a'], ['x', 'y'], 'ref', 1)]):
